@@ -113,7 +113,7 @@ int main(int argc, char **argv)
             snprintf(name, sizeof name, "%s", cls_label(C));
             if (only && strcmp(only, name)) continue;
             build_ops();
-            mc_sys sys = { strdup(name), NOPS, op_name, fresh, enabled, apply, NULL, canon, teardown };
+            mc_sys sys = { strdup(name), NOPS, op_name, fresh, enabled, apply, NULL, canon, teardown, (int) mc_arg_int("lookahead", 1) };
             mc_e1_run(&sys, depth);
         }
     }
